@@ -179,6 +179,39 @@ theorem merge_helper_iff (i : MergeIn) :
   simp only [mergeFate]
   cases a <;> cases b <;> cases c <;> cases d <;> cases e <;> simp
 
+/-! ### merge-like command, then revert -/
+
+/-- a path is recorded as "written by merge" only if the merge wrote its contents; a file the
+incoming revision merely renames or moves is not recorded -/
+theorem merge_records_only_written (r : RecordIn) (h : r.otherChangedContent = false) (ha : r.otherAdded = false) :
+    mergeRecords r = false := by
+  simp [mergeRecords, h, ha]
+
+/-- **two-step sequence**: a locally edited file that a merge-like command (pull, update, merge,
+switch) only renames or moves keeps being user content — a later revert with backups does not
+delete it (it is moved to a numbered backup or kept), whatever the other inputs are -/
+theorem move_only_merge_then_revert_keeps (r : RecordIn) (e : Bool) (i : RevertIn)
+    (hr : r.otherChangedContent = false) (ha : r.otherAdded = false)
+    (hf : i.wtKind = some .file) (hd : i.basisPresent = false ∨ i.basisIsWt = false) (hb : i.backups = true) :
+    revertFate fixedFlags (afterMerge r e i) ≠ .gone := by
+  apply revert_keeps_user_content
+  · obtain ⟨cc, wk, bk, tk, tv, mm, bp, bi⟩ := i
+    simp only [afterMerge, userEdited, mergeRecords] at *
+    subst hf
+    rcases hd with h | h <;> simp [hr, ha, h]
+  · simpa [afterMerge] using hb
+
+example : revertFate fixedFlags (afterMerge { otherChangedContent := false, otherAdded := false, onlyMoved := true } false
+    { changedContent := true, wtKind := some .file, backups := true, targetKind := some .file, targetVersioned := true,
+      mergeModifiedIsWt := true, basisPresent := true, basisIsWt := false }) = .backup := by decide
+
+/-- content the merge did write and that was not edited since is not backed up by revert (it is
+not user content any more): the exemption of the property -/
+theorem merge_written_then_revert_may_discard :
+    revertFate fixedFlags (afterMerge { otherChangedContent := true, otherAdded := false, onlyMoved := false } false
+      { changedContent := true, wtKind := some .file, backups := true, targetKind := some .file, targetVersioned := true,
+        mergeModifiedIsWt := false, basisPresent := true, basisIsWt := false }) = .gone := by decide
+
 /-! ### uncommit -/
 
 /-- **uncommit is pure** with respect to working tree files -/
